@@ -171,6 +171,58 @@ def v2Verdicts (op : String) (m : V2Out) (obs : List (String × String)) : List 
         | o => [.mismatch "res" (reprStr o) "reject"])
   | _, _ => [.badline s!"res={res}"]
 
+/-! ### renewal / formation: request variants → facts of `RenewReq` -/
+
+def renewReqOf (kind : RenewKind) (args : List (String × String)) : Option RenewReq :=
+  let g (k : String) (dflt : String) : String := (getStr args k).getD dflt
+  let txns := (getNat args "txns").getD 1
+  let base : RenewReq :=
+    { readable := txns ≤ 200, txns, fcs := (getNat args "fcs").getD 1, revs := (getNat args "revs").getD 1,
+      algOk := g "keyalg" "ok" != "bad", keyLen := (getNat args "keylen").getD 32, fsigOk := g "fsig" "ok" != "bad" }
+  -- the clearing revision
+  let r1 : Option RenewReq :=
+    match kind, g "clr" "ok" with
+    | .form2, _ => some base
+    | _, "ok" => some base
+    | .renew3, "unknown" => some { base with clrKnown := false }
+    | .renew3, "revnum" | .renew3, "filesize" | .renew3, "root" | .renew3, "window" | .renew3, "uc" | .renew3, "uckeys0"
+    | .renew3, "unlockhash" => some { base with clrShapeOk := false }
+    | _, "outs0" => some { base with clrValid := 0, clrMissed := 0 }
+    | _, "outs1" => some { base with clrValid := 1, clrMissed := 1 }
+    | _, "outs3" => some { base with clrValid := 3, clrMissed := 3 }
+    | .renew3, "missed3" => some { base with clrMissed := 3 }
+    | .renew3, "valid1" => some { base with clrValid := 1 }
+    | .renew3, "valid3" => some { base with clrValid := 3 }
+    | _, "more" | _, "steal" | _, "sumovf" | .renew2, "under" | .renew3, "differ" | .renew3, "addr" => some { base with clrValuesOk := false }
+    | _, _ => none
+  -- the new contract
+  let fcKey := if kind == .form2 then "fc" else "ren"
+  let r2 : Option RenewReq := r1.bind fun r =>
+    match g fcKey "ok" with
+    | "ok" => some r
+    | "filesize" | "filesize1" | "root" | "revnum1" | "wend_small" | "wstart_small" => some { r with fcFieldsOk := false }
+    | "wstart_huge" => some { r with hardforkOk := false }
+    | "hugeext" => some { r with baseOk := false, fcFieldsOk := false }
+    | "wend_huge" | "payout_huge" | "payout_huge_both" | "payout_zero" | "burn" | "void_huge" | "addr" | "addr_missed" | "void"
+    | "unlockhash" => some { r with fcRestOk := false }
+    | "outs0" => some { r with fcValid := 0, fcMissed := 0 }
+    | "valid1" => some { r with fcValid := 1 }
+    | "valid3" => some { r with fcValid := 3 }
+    | "missed2" => some { r with fcMissed := 2 }
+    | "missed4" => some { r with fcMissed := 4 }
+    | _ => none
+  -- the revision signature
+  r2.bind fun r =>
+    match g "rsig" "ok" with
+    | "ok" => some r
+    | "bad" => some { r with rsigOk := false }
+    | "len0" => some { r with rsigLen := 0 }
+    | "len1" => some { r with rsigLen := 1 }
+    | "len63" => some { r with rsigLen := 63 }
+    | "len65" => some { r with rsigLen := 65 }
+    | "parent" | "pki" | "covered" | "covered2" | "covered0" | "covered9" => some { r with rsigMetaOk := false }
+    | _ => none
+
 /-! ### the step function -/
 
 def step (fx : Fixes) (d : DState) (l : Line) : DState × List Verdict :=
@@ -367,6 +419,35 @@ def step (fx : Fixes) (d : DState) (l : Line) : DState × List Verdict :=
         | _, _ => []
       (d, mon ++ noop ++ vs)
     | _, _, _ => (d, [.badline "r3 fields"])
+  else if l.op == "renew" || l.op == "form2" then
+    let mon := crashVerdicts l.op l.obs
+    let kind? : Option RenewKind :=
+      if l.op == "form2" then some .form2
+      else match getNat l.args "proto" with | some 3 => some .renew3 | some 2 => some .renew2 | _ => none
+    match kind?.bind (fun k => (renewReqOf k l.args).map (fun r => (k, r))) with
+    | none => (d, [.badline "renew fields"])
+    | some (kind, r) =>
+      if res == "hang" then (d, mon) else
+      let sn? := getSnap l.obs
+      let s0 : HostState := { rev := 0, roots := List.range ((getNat l.args "n").getD 0), balance := 0 }
+      let (o, _) := renew fx kind s0 r
+      let d := match o with | .panic _ => { d with modelPanics := d.modelPanics + 1 } | _ => d
+      let vs : List Verdict :=
+        match o, res with
+        | .panic site, "crash" => cmp "site" site.name ((getStr l.obs "site").getD "?")
+        | .accept, "accept" => []
+        | .reject, "reject" => []
+        | o, r => [.mismatch "res" (reprStr o) r]
+      let noop : List Verdict :=
+        match sn?, res with
+        | some sn, "reject" =>
+          noopVerdicts sn false ++
+          (if sn.charged != 0 || sn.gained != 0 then [.monitor "reject_noop/balance_refused" s!"charged={sn.charged},gained={sn.gained}"] else [])
+        | some sn, "accept" =>
+          -- a formation must not touch the existing contract
+          if l.op == "form2" then noopVerdicts sn false else []
+        | _, _ => []
+      (d, mon ++ noop ++ vs)
   else if l.op == "v2roots" then
     match getNat l.args "n", getNat l.args "off", getNat l.args "num" with
     | some n, some off, some num =>
